@@ -4,6 +4,7 @@ mod anchors;
 mod arena;
 mod bits;
 mod cell;
+mod corrupt;
 mod driver;
 mod dump;
 mod eventsmon;
@@ -21,6 +22,7 @@ mod special;
 mod stickymon;
 mod undomon;
 mod world;
+mod ysync;
 
 #[global_allocator]
 static GLOBAL: arena::Arena = arena::Arena;
